@@ -368,8 +368,19 @@ def _trace_check(ctx):
     return res
 
 
+def uniform_nodes(n):
+    """(nodes strictly inside the unit circle, nodes exactly on it) of the n x n grid on [-1, 1]^2, in integers:
+    node (i, j) has (n-1)(x, y) = (2i-(n-1), 2j-(n-1))"""
+    import numpy as np
+    if n == 1:
+        return 0, 0          # the single node is (-1, -1)
+    a = (2 * np.arange(n, dtype=np.int64) - (n - 1)) ** 2
+    r2 = a[:, None] + a[None, :]
+    return int(np.count_nonzero(r2 < (n - 1) ** 2)), int(np.count_nonzero(r2 == (n - 1) ** 2))
+
+
 def expected_count(name, n):
-    """documented number of points of each named sampling (uniform: counted grid nodes)"""
+    """documented number of points of each named sampling (uniform: grid nodes inside or on the unit circle)"""
     if name in ('line_x', 'line_y', 'positive_line_x', 'positive_line_y', 'ring', 'random'):
         return n
     if name == 'cross':
@@ -377,16 +388,13 @@ def expected_count(name, n):
     if name == 'hexapolar':
         return 1 + 3 * n * (n + 1)
     if name == 'uniform':
-        if n == 1:
-            return 0        # the single node is (-1, -1)
-        from fractions import Fraction
-        xs = [Fraction(-1) + Fraction(2 * i, n - 1) for i in range(n)]
-        return sum(1 for a in xs for b in xs if a * a + b * b <= 1)
+        return sum(uniform_nodes(n))
     raise ValueError(name)
 
 
 def dist_oracle(name, n, vx, vy, seed=None):
-    """violations of the sampling clauses on the implementation: count, inside the unit disk, vignetting shrinks"""
+    """violations of the sampling clauses on the implementation: documented count, inside the unit disk, no repeated
+    point, vignetting shrinks"""
     import numpy as np
     from optiland.distribution import create_distribution, GaussianQuadrature
     bad = []
@@ -408,9 +416,19 @@ def dist_oracle(name, n, vx, vy, seed=None):
     d.generate_points(n, vx, vy)
     d0.generate_points(n, 0.0, 0.0)
     x, y, x0, y0 = (np.asarray(v, dtype=float) for v in (d.x, d.y, d0.x, d0.y))
-    if len(x) != len(y) or len(x) != exp:
-        if not (name == 'uniform' and abs(len(x) - exp) <= 8 and len(x) == len(y)):   # nodes on the rim: rounding decides
-            bad.append({'kind': 'count', 'got': [len(x), len(y)], 'expected': exp})
+    rim = uniform_nodes(n)[1] if name == 'uniform' else 0      # nodes exactly on the rim: binary64 rounding decides
+    if len(x) != len(y) or not exp - rim <= len(x) <= exp:
+        bad.append({'kind': 'count', 'got': [len(x), len(y)], 'expected': exp if not rim else [exp - rim, exp]})
+    if name != 'random' and len(x0) == len(y0) and len(x0) > 1:
+        z = np.round(x0, 12) + 1j * np.round(y0, 12)
+        uniq, cnt = np.unique(z, return_counts=True)
+        rep = uniq[cnt > 1]
+        # the two arms of the cross share the centre when n is odd (documented 2 n points)
+        if name == 'cross':
+            rep = rep[rep != 0]
+        if len(rep):
+            bad.append({'kind': 'repeated-point', 'point': [float(rep[0].real), float(rep[0].imag)],
+                        'times': int(cnt[cnt > 1][0]), 'repeated_points': int(len(rep))})
     if np.any(x * x + y * y > 1 + 1e-12) or np.any(x0 * x0 + y0 * y0 > 1 + 1e-12):
         bad.append({'kind': 'outside-unit-disk', 'max_r2': float(max(np.max(x * x + y * y), np.max(x0 * x0 + y0 * y0)))})
     if name != 'random' and len(x) == len(x0):
@@ -503,24 +521,42 @@ def _origins_check(ctx):
     return res
 
 
-def _count_check(ctx):
-    from optiland.distribution import create_distribution
-    g = ctx.gen
-    res = {'name': 'sampling-counts-on-implementation', 'n': 0, 'nontrivial': 0, 'histogram': {}, 'samples': [],
-           'disagreements': []}
+SWEEP_FULL = {'hexapolar': 150, 'uniform': 400}      # every count 1..400 unless listed (hexapolar: RINGS; the
+SWEEP_QUICK = {'hexapolar': 60, 'uniform': 200}       # cost is cubic in the ring count, 150 rings = 67951 points)
+
+
+def sampling_sweep(limits, vig=(0.15, 0.3), default=400):
+    """every named sampling at EVERY count 1..limit on the implementation itself (no lens, no Coq): documented count,
+    inside the unit disk, no repeated point, vignetting only shrinks.  Returns (number of evaluations, witnesses)"""
+    out, n_eval = [], 0
     for name in DIST_NAMES + ['random', 'gq', 'gqsym']:
-        rng_n = range(1, 9) if name in ('hexapolar',) else (range(-1, 9) if name.startswith('gq') else range(1, ctx.n(31, 61)))
-        for n in rng_n:
-            vx, vy = g.r.choice([0.0, g.uni(0, 0.7)]), g.r.choice([0.0, g.uni(0, 0.7)])
+        counts = range(-1, 9) if name.startswith('gq') else range(1, limits.get(name, default) + 1)
+        failing, first = [], None
+        for n in counts:
+            n_eval += 1
             try:
-                bad = dist_oracle(name, n, vx, vy)
+                bad = dist_oracle(name, n, *vig)
             except Exception as e:    # noqa
                 bad = [{'kind': 'raised', 'error': type(e).__name__, 'msg': str(e)[:80]}]
-            res['n'] += 1
-            res['nontrivial'] += 1
             if bad:
-                res['disagreements'].append({'distribution': name, 'n': n, 'vx': vx, 'vy': vy, 'oracle': bad,
-                                             'violates_property': True})
+                failing.append(n)
+                first = first or (n, bad)
+        if first:
+            out.append({'distribution': name, 'n': first[0], 'vx': vig[0], 'vy': vig[1], 'oracle': first[1],
+                        'failing_counts': failing[:12], 'number_of_failing_counts': len(failing),
+                        'counts_swept': [counts[0], counts[-1]], 'violates_property': True})
+    return n_eval, out
+
+
+def _count_check(ctx):
+    from optiland.distribution import create_distribution
+    res = {'name': 'sampling-counts-on-implementation', 'n': 0, 'nontrivial': 0,
+           'histogram': {'counts_swept_per_sampling': '1..400 (hexapolar rings 1..%d, uniform 1..%d in this tier)' %
+                         ((SWEEP_QUICK if ctx.quick() else SWEEP_FULL)['hexapolar'], (SWEEP_QUICK if ctx.quick() else SWEEP_FULL)['uniform'])},
+           'samples': [], 'disagreements': []}
+    n_eval, wit = sampling_sweep(SWEEP_QUICK if ctx.quick() else SWEEP_FULL)
+    res['n'] = res['nontrivial'] = n_eval
+    res['disagreements'].extend(wit)
     for bogus in ('hexpolar', '', 'gaussian', 'Uniform'):
         res['n'] += 1
         try:
@@ -537,8 +573,12 @@ def _count_check(ctx):
 # 4. search: the property as an oracle on the implementation
 # ---------------------------------------------------------------------------------------------
 def search(ctx, broken, disagreements):
+    """implementation-level oracles only (nothing here needs the Coq side, so a verdict is reached even when a
+    translation or a proof failed).  Returns a LIST of witnesses, unlisted ones first."""
     import c03lib
     found = []
+    # every named sampling at every count (cheap, no lens)
+    found.extend(sampling_sweep(SWEEP_FULL)[1])
     lenses, hist = _lenses(ctx, ctx.n(6, 40), 8, salt=101)
     for spec, o, rs in lenses:
         for ray, via, r in rs:
@@ -558,21 +598,11 @@ def search(ctx, broken, disagreements):
                 found.append({'spec': spec, 'origins_args(Hx,Hy,Px,Py,vx,vy)': list(args), 'implementation': list(r),
                               'oracle': bad[:3], 'violates_property': True})
                 break
-    g = ctx.gen
-    for name in DIST_NAMES + ['random', 'gq', 'gqsym']:
-        for n in (range(1, 10) if name == 'hexapolar' else range(-1, 9) if name.startswith('gq') else range(1, 40)):
-            try:
-                bad = dist_oracle(name, n, g.uni(0, 0.8), g.uni(0, 0.8))
-            except Exception as e:   # noqa
-                bad = [{'kind': 'raised', 'error': type(e).__name__}]
-            if bad:
-                found.append({'distribution': name, 'n': n, 'oracle': bad, 'violates_property': True})
-                break
     # unlisted witnesses first, so that a new defect is not hidden behind a listed one
     import vlib
     known = vlib.load_known_findings(PROP)
     found.sort(key=lambda w: any(matches_finding(w, f) for f in known))
-    return found[:6] or None
+    return found[:8] or None
 
 
 # ---------------------------------------------------------------------------------------------
